@@ -446,7 +446,12 @@ def do_op(rng, prs, st):
             return "replace_data-raised-" + type(e).__name__
         return "replace_data"
     if r < 0.54:
-        a_slide().shapes.add_ole_object(io.BytesIO(b"PK-not-really-xlsx-%d" % rng.randint(0, 1)), PROG_ID.XLSX, 0, 0, 100, 100)
+        s_ = a_slide()
+        pid = rng.choice([PROG_ID.XLSX, PROG_ID.XLSX, PROG_ID.DOCX, PROG_ID.PPTX, "Custom.ProgId"])
+        st["last"] = {"slide": s_.part, "prog_id": pid}
+        st["pre_after_slide_pick"] = snapshot(prs)
+        kw = {"icon_file": io.BytesIO(rng.choice(imgs()))} if (not isinstance(pid, PROG_ID) or rng.random() < 0.3) else {}
+        s_.shapes.add_ole_object(io.BytesIO(b"PK-not-really-xlsx-%d" % rng.randint(0, 1)), pid, 0, 0, 100, 100, **kw)
         return "add_ole_object"
     if r < 0.58:
         g = a_slide().shapes.add_group_shape(); g.shapes.add_textbox(0, 0, 5, 5).text_frame.text = "g"
@@ -584,6 +589,27 @@ def predicted(ctx, prs, st, desc, pre, pre_parts, post, post_parts, ids):
         if len(newk) != 2 or len(ch) != 1 or len(xl) != 1:
             return None
         op = "chart %d %d %d" % (ids(id(last["slide"])), ids(ch[0]), ids(xl[0]))
+    elif desc == "add_ole_object":
+        from pptx.enum.shapes import PROG_ID
+        from pptx.parts.embeddedpackage import EmbeddedPackagePart
+        ole = [k for k in newk if isinstance(post_parts[k], EmbeddedPackagePart)]
+        img = [k for k in newk if isinstance(post_parts[k], ImagePart)]
+        if len(ole) != 1 or len(img) > 1 or len(newk) != len(ole) + len(img):
+            return None
+        tmpl = {PROG_ID.XLSX: "/ppt/embeddings/Microsoft_Excel_Sheet%d.xlsx", PROG_ID.DOCX: "/ppt/embeddings/Microsoft_Word_Document%d.docx",
+                PROG_ID.PPTX: "/ppt/embeddings/Microsoft_PowerPoint_Presentation%d.pptx"}.get(last["prog_id"], "/ppt/embeddings/oleObject%d.bin")
+        pre_t, post_t = tmpl.split("%d")
+        slide_k = id(last["slide"])
+        if img:
+            ipart = post_parts[img[0]]
+            op = "ole %d %d %s %s none %d %s" % (ids(slide_k), ids(ole[0]), enc(pre_t), enc(post_t), ids(img[0]), enc(ipart.partname.ext))
+        else:
+            # the icon's bytes were in the package already: the image part the slide's new relationship leads to
+            tg = [t[1] for rid, t in post[slide_k][2].items() if t[0] == "i" and isinstance(post_parts.get(t[1]), ImagePart)
+                  and (rid not in pre[slide_k][2] or post[slide_k][3].count(rid) > pre[slide_k][3].count(rid))]
+            if len(set(tg)) != 1:
+                return None
+            op = "ole %d %d %s %s %d 0 %s" % (ids(slide_k), ids(ole[0]), enc(pre_t), enc(post_t), ids(tg[0]), enc(post_parts[tg[0]].partname.ext))
     elif desc == "notes_slide":
         from pptx.parts.slide import NotesMasterPart, NotesSlidePart
         if not newk:
@@ -635,7 +661,7 @@ def run_history(ctx, rng, thorough=False):
         ctx.count("op-" + desc)
         new, new_parts = snapshot(prs)
         steps.append(enc_deltas(deltas(snap, new), ids))
-        if desc in ("add_slide", "add_picture", "add_chart", "notes_slide"):
+        if desc in ("add_slide", "add_picture", "add_chart", "notes_slide", "add_ole_object"):
             pre, pre_parts = st.pop("pre_after_slide_pick", None) or (snap, snap_parts)
             try:
                 pr = predicted(ctx, prs, st, desc, pre, pre_parts, new, new_parts, ids)
